@@ -509,6 +509,7 @@ BUILTINS.update({
     "getattr": b_getattr, "print": b_print, "any": b_any, "all": b_all, "type": b_type, "id": b_id, "callable": b_callable,
     "True": True, "False": False, "None": None, "Ellipsis": Ellipsis,
 })
+BUILTINS["open"] = FuncRef("open")
 for _e in ("Exception", "AssertionError", "TypeError", "ValueError", "KeyError", "IndexError", "StopIteration",
            "AttributeError", "ImportError", "ModuleNotFoundError", "NotImplementedError", "RuntimeError",
            "SyntaxError", "OSError", "FileNotFoundError", "BaseException", "LookupError", "NotImplemented"):
@@ -606,6 +607,8 @@ def builtin_method(I: Interp, base, name, args, kwargs, node=None):
     r = I.V.method_hook(I, base, name, args, kwargs, node)
     if r is not _MISSING:
         return r
+    if isinstance(base, SV) and base.ty == STR:
+        return I.V.havoc_call(I, f"str.{name}", args, kwargs, node)
     raise Unsupported(f"method {name} on {base!r}")
 
 
